@@ -510,7 +510,10 @@ def run_c10(pid, tier, seed):
             continue
         for i in ids:
             kind = meta.get("kinds", {}).get(str(i))
-            if kind in ("ERestart", "ESnapReq", "EAppendReq", "EAppendReqCut", "EVoteReq", "ESnapRun", "ESnapTaken", "ETask"):
+            # events whose outcome decides what is on stable storage (what a restart finds): the leader's own flush before it
+            # commits is among them
+            if kind in ("ERestart", "ESnapReq", "EAppendReq", "EAppendReqCut", "EVoteReq", "ESnapRun", "ESnapTaken", "ETask", "LReplUpdate", "LClient",
+                        "LChangeConfig"):
                 viols.append({"signature": "node-mismatch %s" % kind, "found": True,
                               "detail": "model and implementation disagree on case %d (%s)" % (i, meta["desc"].get(str(i))),
                               "replay": {"property": pid, "kind": "node-correspondence", "case_id": i, "case_file": f, "event": kind}})
